@@ -233,7 +233,7 @@ func (in *inst) open() {
 	if in.gm.size != size {
 		harnessDie("initial size %d, want %d", in.gm.size, size)
 	}
-	in.m = &memModel{size: size, maxPages: uint64(maxPagesOf(in.b.Kind, in.b.Pages)), shared: in.shared(), small: !in.b.huge(), diff: map[uint64]byte{}}
+	in.m = &memModel{size: size, maxPages: uint64(maxPagesOf(in.b.Kind, in.b.Pages)), shared: in.shared(), small: !in.b.huge()}
 	if in.m.small {
 		real := in.gm.slice()
 		paint(real, 0)
@@ -477,7 +477,7 @@ func runItem(b *batch, from int, prog *progress, itemIdx int, touchEvery int) *i
 		lastDesc = d
 		// dry run of the reference for the addresses only, paint their surroundings, then the real simulation
 		sim := func() *simulator {
-			clear(in.m.diff)
+			in.m.clearDiff()
 			x := &simulator{m: in.m, s: s, base: uint64(c.eff), cond: c.cond != 0, v: defV, v2: defV2}
 			return x
 		}
@@ -496,13 +496,13 @@ func runItem(b *batch, from int, prog *progress, itemIdx int, touchEvery int) *i
 		in.m.size = startSize
 		if b.Prune && !x.e.AccRan && len(x.e.Traps) > 0 {
 			res.Out["pruned:earlier-access-traps-first(quick tier)"]++
-			clear(in.m.diff)
+			in.m.clearDiff()
 			continue
 		}
 		if x.e.SkipHuge {
 			res.Skipped++
 			res.Out["skipped:in-bounds-bulk>1MiB"]++
-			clear(in.m.diff)
+			in.m.clearDiff()
 			continue
 		}
 		x = sim()
@@ -643,31 +643,28 @@ func (in *inst) verify(wins []uint64) string {
 		for uint64(len(in.ref)) < m.size {
 			in.ref = append(in.ref, 0)
 		}
-		for a, v := range m.diff {
-			in.ref[a] = v
-		}
-		if !bytes.Equal(real, in.ref[:m.size]) {
-			msg = describeDiff(real, in.ref[:m.size], 0, m.diff)
+		ref := in.ref[:m.size]
+		m.applyDiff(ref, 0)
+		if !bytes.Equal(real, ref) {
+			msg = describeDiff(real, ref, 0, m)
 			// repair: repaint everything
 			paint(real[:m.painted], 0)
 			clear(real[m.painted:])
 		} else {
-			for a := range m.diff {
-				real[a] = m.base(a)
-			}
+			m.restoreBase(real, 0)
 		}
-		for a := range m.diff {
-			in.ref[a] = m.base(a)
-		}
-		clear(m.diff)
+		m.restoreBase(ref, 0)
+		m.clearDiff()
 		return msg
 	}
 	set := map[uint64]bool{}
 	for _, c := range wins {
 		set[c] = true
 	}
-	for a := range m.diff {
-		set[a/chunk] = true
+	for _, s := range m.diff {
+		for c := s.addr / chunk; c*chunk < s.addr+uint64(len(s.data)); c++ {
+			set[c] = true
+		}
 	}
 	if in.scratch == nil {
 		in.scratch = make([]byte, chunk)
@@ -678,33 +675,16 @@ func (in *inst) verify(wins []uint64) string {
 		}
 		in.known[c] = true
 		rc := real[c*chunk : (c+1)*chunk]
-		var expc []byte
-		dirty := false
-		for a := range m.diff {
-			if a/chunk == c {
-				dirty = true
-				break
-			}
+		expc := in.scratch
+		if m.hot[c] {
+			copy(expc, in.patChunk(c))
+		} else {
+			clear(expc)
 		}
-		switch {
-		case !dirty && m.hot[c]:
-			expc = in.patChunk(c)
-		default:
-			expc = in.scratch
-			if m.hot[c] {
-				copy(expc, in.patChunk(c))
-			} else {
-				clear(expc)
-			}
-			for a, v := range m.diff {
-				if a/chunk == c {
-					expc[a%chunk] = v
-				}
-			}
-		}
+		dirty := m.applyDiff(expc, c*chunk)
 		if !bytes.Equal(rc, expc) {
 			if msg == "" {
-				msg = describeDiff(rc, expc, c*chunk, m.diff)
+				msg = describeDiff(rc, expc, c*chunk, m)
 			}
 			if m.hot[c] {
 				copy(rc, in.patChunk(c))
@@ -712,26 +692,21 @@ func (in *inst) verify(wins []uint64) string {
 				clear(rc)
 			}
 		} else if dirty {
-			for a := range m.diff {
-				if a/chunk == c {
-					rc[a%chunk] = m.base(a)
-				}
-			}
+			m.restoreBase(rc, c*chunk)
 		}
 	}
-	clear(m.diff)
+	m.clearDiff()
 	return msg
 }
 
-func describeDiff(real, exp []byte, at uint64, diff map[uint64]byte) string {
+func describeDiff(real, exp []byte, at uint64, m *memModel) string {
 	var addrs []string
 	n := 0
 	for i := range real {
 		if real[i] != exp[i] {
 			n++
 			if len(addrs) < 6 {
-				_, wr := diff[at+uint64(i)]
-				addrs = append(addrs, fmt.Sprintf("[%#x]=%#02x want %#02x (reference wrote here: %v)", at+uint64(i), real[i], exp[i], wr))
+				addrs = append(addrs, fmt.Sprintf("[%#x]=%#02x want %#02x (reference wrote here: %v)", at+uint64(i), real[i], exp[i], m.wrote(at+uint64(i))))
 			}
 		}
 	}
